@@ -257,11 +257,60 @@ def run(repo: Repo, chk: Check):
               "get_scope_name no longer appends the module's name and joins with '.'", None, f"{u.path}:{gs.lineno}")
     gf = u.func("get_function_name")
     chk.saw("utils", "get_function_name")
-    rets = [r for r in ast.walk(gf) if isinstance(r, ast.Return) and r.value is not None]
-    okf = bool(rets) and all(isinstance(r.value, ast.BinOp) and isinstance(r.value.op, ast.Add) and norm(r.value).startswith("scope +") for r in rets) and \
-        any(isinstance(st, ast.Assign) and norm(st.targets[0]) == "scope" and norm(st.value) == "get_scope_name(node)" for st in ast.walk(gf))
-    chk.judge("R13.e", "utils:get_function_name:function names are prefixed with the qualified scope", okf,
-              f"get_function_name returns {[norm(r.value) for r in rets]}", None, f"{u.path}:{gf.lineno}")
+    # every returned name is  <get_scope_name(node)> "." <local name>  when the scope name is not empty (and the local name alone otherwise)
+    from .shared import return_paths
+    gparam = gf.args.args[0].arg
+    SC = f"get_scope_name({gparam})"
+
+    def parts(e):
+        """flatten string building into a list of pieces: text constants and expressions"""
+        if isinstance(e, ast.BinOp) and isinstance(e.op, ast.Add):
+            return parts(e.left) + parts(e.right)
+        if isinstance(e, ast.JoinedStr):
+            out = []
+            for v in e.values:
+                out += parts(v.value) if isinstance(v, ast.FormattedValue) and v.format_spec is None and v.conversion == -1 else [v.value if isinstance(v, ast.Constant) else norm(v)]
+            return out
+        if isinstance(e, ast.Constant) and isinstance(e.value, str):
+            return [e.value]
+        return [norm(e)]
+    bad, npaths = [], 0
+    for conds, v in return_paths(gf):
+        if v is None:
+            continue
+        npaths += 1
+        # is the scope name known to be empty / not empty on this path?
+        nonempty = None
+        for t, pol in conds:
+            tt = norm(t)
+            if tt == SC:
+                nonempty = pol
+            elif tt in (f"{SC} != ''", f"len({SC}) > 0"):
+                nonempty = pol
+            elif tt in (f"{SC} == ''", f"not {SC}"):
+                nonempty = not pol
+        ps = [x for x in parts(v) if x != ""]
+        # merge adjacent constants
+        merged = []
+        for x in ps:
+            if merged and not merged[-1].startswith(SC) and x != SC and not any(ch in merged[-1] for ch in "()") and not any(ch in x for ch in "()"):
+                merged[-1] += x
+            else:
+                merged.append(x)
+        if nonempty is False:
+            ok_ = SC not in "".join(merged) or merged[0] == SC   # the scope is '' on this path: whatever is concatenated, it adds nothing but must not add a '.'
+            ok_ = ok_ and not (len(merged) > 1 and merged[0] == SC and merged[1].startswith("."))
+        elif nonempty is True:
+            ok_ = len(merged) >= 2 and merged[0] == SC and merged[1].startswith(".")
+        else:
+            # no test on the scope name: 'scope + name' gives a name without separator, 'scope + "." + name' a leading dot for the main file
+            ok_ = False
+        if not ok_:
+            bad.append((norm(v)[:70], {True: "scope not empty", False: "scope empty", None: "scope not tested"}[nonempty]))
+    if npaths == 0:
+        raise AnalysisError("get_function_name: no return found")
+    chk.judge("R13.e", "utils:get_function_name:function names are prefixed with the qualified scope", not bad,
+              f"get_function_name returns {bad}: expected '<module-qualified scope>.<name>' when the scope name is not empty and the bare name otherwise", None, f"{u.path}:{gf.lineno}")
 
 
 def _is_table(e):
